@@ -112,6 +112,17 @@ theorem hindex_fold (mp_max ell mp m : Int) (hl : ell ≠ 0) :
 theorem hindex_fold_bound (ell mp m : Int) (h1 : -ell ≤ mp) (h2 : mp ≤ ell) (h3 : -ell ≤ m) (h4 : m ≤ ell) :
     (wedgeRep mp m).2 ≤ ell := Lemmas.wedgeRep_bound mp m ell h1 h2 h3 h4
 
+/-- Hence every `(mp, m)` with `|mp|, |m| ≤ ell` is stored at the slot of its wedge representative
+    (provided that representative's first order is within `mp_max`). -/
+theorem hindex_fold_get (mp_max ell_max ell mp m : Int) (hP : 0 ≤ mp_max) (hl : 0 < ell) (hL : ell ≤ ell_max)
+    (h1 : -ell ≤ mp) (h2 : mp ≤ ell) (h3 : -ell ≤ m) (h4 : m ≤ ell)
+    (h5 : ((wedgeRep mp m).1.natAbs : Int) ≤ mp_max) :
+    0 ≤ WignerHindex ell mp m (some mp_max) ∧
+    WignerHindex ell mp m (some mp_max) < WignerHsize mp_max ell_max ∧
+    (hRange mp_max ell_max)[(WignerHindex ell mp m (some mp_max)).toNat]?
+      = some (ell, (wedgeRep mp m).1, (wedgeRep mp m).2) :=
+  Lemmas.hindex_fold_get mp_max ell_max ell mp m hP hl hL h1 h2 h3 h4 h5
+
 /-- The index respects the two H symmetries (ties included). -/
 theorem hindex_symm (ell mp m : Int) (P : Option Int) :
     WignerHindex ell mp m P = WignerHindex ell m mp P ∧
@@ -128,9 +139,9 @@ theorem dsize_eq_length (ell_min mp_max ell_max : Int) (h0 : 0 ≤ ell_min) (h1 
   Lemmas.dsize_eq_length ell_min mp_max ell_max h0 h1 h2 h3
 
 /-- A negative `ell_max` is the sentinel for `ell_max := mp_max` ... -/
-theorem dsize_default (ell_min mp_max ell_max : Int) (h : ell_max < 0) (h3 : 0 ≤ mp_max) :
+theorem dsize_default (ell_min mp_max ell_max : Int) (h : ell_max < 0) :
     WignerDsize ell_min mp_max ell_max = WignerDsize ell_min mp_max mp_max :=
-  Lemmas.dsize_default ell_min mp_max ell_max h h3
+  Lemmas.dsize_default ell_min mp_max ell_max h
 
 /-- ... so `0 ≤ ell_max` cannot be dropped from `dsize_eq_length` (the empty range `0..-1` has size 1). -/
 theorem dsize_neg_ell_max : WignerDsize 0 0 (-1) ≠ ((dRange 0 0 (-1)).length : Int) := by decide
